@@ -122,6 +122,13 @@ def run(ctx):
     run_case(ctx, ser(dict(kind="fit", label="corpus", S=[F(0), F(0), F(1, 5), F(1), F(1)], U=[F(0)] * 3 + [F(1)] * 3,
                            P=[(F(1),), (F(-2),), (F(4),)], nodes=None)))
     run_case(ctx, ser(dict(kind="fit", label="corpus", S=[F(0), F(1, 3), F(1, 2), F(1)], U=[F(0), F(1, 2), F(1)], P=[(F(2),), (F(3),)], nodes=None)))
+    for i in range(budget(ctx, 6, 50)):
+        # higher degrees (4..5 on either side, few spans): the Gram quadrature then uses 9..11 nodes per span
+        interval = rand_interval(rng)
+        p1, p2 = (rng.randint(4, 5), rng.randint(1, 3)) if i % 2 == 0 else (rng.randint(1, 3), rng.randint(4, 5))
+        S = rand_kv(rng, p=p1, nintmax=1, interval=interval)
+        U = rand_kv(rng, p=p2, nintmax=1, interval=interval)
+        run_case(ctx, ser(dict(kind="fit", label="highdeg", S=S, U=U, P=rand_points(rng, kv_info(U)[1], 1), nodes=None)))
     for i in range(budget(ctx, 50, 700)):
         interval = rand_interval(rng)
         label = rng.choice(["generic", "generic", "inside", "nodes", "nodes"])
